@@ -77,6 +77,7 @@ type Mismatch struct {
 	Key  int    `json:"key"`
 	Got  string `json:"got"`
 	Want string `json:"want"`
+	Note string `json:"note,omitempty"`
 }
 
 func show(b []byte) string {
